@@ -35,6 +35,19 @@ Definition is_sasl_mech (c : fchild) : bool :=
 Definition advertised (children : list fchild) : list str :=
   map (fun c : fchild => snd c) (filter is_sasl_mech children).
 
+(* One level up: the children of <stream:features/> themselves, each with its own element
+   children: (namespace, local name, children).  stanza.StreamFeatures decodes the field
+   Mechanisms from every child element {urn:ietf:params:xml:ns:xmpp-sasl}mechanisms (a
+   second such element appends to the same slice); a <mechanisms/> element in any other
+   namespace, a <mechanism/> standing directly under the features, or a SASL list nested
+   inside some other child advertise nothing. *)
+Definition s_mechanisms : str := [109; 101; 99; 104; 97; 110; 105; 115; 109; 115].   (* mechanisms *)
+Definition fnode := (str * str * list fchild)%type.
+Definition is_sasl_list (n : fnode) : bool :=
+  let '(ns, local, _) := n in str_eqb ns s_ns_sasl && str_eqb local s_mechanisms.
+Definition advertised_in (nodes : list fnode) : list str :=
+  flat_map (fun n : fnode => advertised (snd n)) (filter is_sasl_list nodes).
+
 (* isSupportedMech *)
 Definition is_supported_mech (m : str) (server : list str) : bool :=
   existsb (str_eqb m) server.
@@ -56,7 +69,8 @@ Definition plain_payload (user secret : str) : str := b64_encode (plain_raw user
 
 (* xml.Marshal(stanza.SASLAuth{Mechanism: mech, Value: payload}):
      <auth xmlns="urn:ietf:params:xml:ns:xmpp-sasl" mechanism="MECH">PAYLOAD</auth>
-   Value is an ",innerxml" field: written verbatim.  The mechanism attribute is
+   Value is a ",chardata" field; the payload consists of base64 characters only, which the
+   encoder writes verbatim (Props/C14.v, C14_b64_alphabet).  The mechanism attribute is
    written verbatim here; auth_sasl only reaches this with PLAIN or X-OAUTH2,
    which the encoder does not escape. *)
 Definition auth_open : str :=   (* <auth xmlns="urn:ietf:params:xml:ns:xmpp-sasl" mechanism= and the opening quote *)
@@ -115,7 +129,12 @@ Definition auth_sasl (k : cred_kind) (server : list str) (user secret : str)
   (w : wres) (r : reply) : outcome :=
   auth_sasl_mechs (cred_mechs k) server user secret w r.
 
-(* authSASL on the features element as the server sent it *)
+(* authSASL on the children of the features element as the server sent them *)
+Definition auth_sasl_nodes (k : cred_kind) (nodes : list fnode) (user secret : str)
+  (w : wres) (r : reply) : outcome :=
+  auth_sasl k (advertised_in nodes) user secret w r.
+
+(* authSASL on the children of the SASL <mechanisms/> element as the server sent them *)
 Definition auth_sasl_features (k : cred_kind) (children : list fchild) (user secret : str)
   (w : wres) (r : reply) : outcome :=
   auth_sasl k (advertised children) user secret w r.
